@@ -3,6 +3,7 @@ import DriverLib.ShapeOps
 import DriverLib.IndexOps
 import DriverLib.ReduceOps
 import DriverLib.UnaryOps
+import DriverLib.MatMulOps
 open Lean
 namespace Drv
 open Gonnx
@@ -32,6 +33,7 @@ def runOp (op : String) (attrs : Json) (ins : List (Option DT)) : Answer :=
     else if isReduceOp op then runReduceOp op attrs ins
     else if isUnaryOp op then runUnaryOp op attrs ins
     else if isConstOp op then runConstOp op attrs ins
+    else if isMatMulOp op then runMatMulOp op attrs ins
     else { model := { status := "unmodelled" } }
 
 end Drv
